@@ -287,6 +287,73 @@ func main() {
 			t.Note(fmt.Sprintf("%d first upgrades x {plain, followed by a refused offer} x %d (config, offer) second upgrades on the same Extension after Reset with Parameters reassigned", len(hists), len(curs)))
 		})
 
+		// The upgrader parses every offer inside its read buffer, and the next handshake's offer
+		// lands in the very same bytes. One Extension (Reset between upgrades) sees offer A parsed in
+		// a buffer, then - the buffer rewritten in place - offer B of the same rendered length: the
+		// answer to B is the answer a fresh Extension gives to B.
+		r.Part("E1d-offers-parsed-in-a-reused-buffer", func(t *explore.T) {
+			render := func(p P) []byte {
+				var b bytes.Buffer
+				httphead.WriteOptions(&b, []httphead.Option{offerOption(p)})
+				return append([]byte{}, b.Bytes()...)
+			}
+			byLen := map[int][]P{}
+			for _, o := range offers {
+				byLen[len(render(o))] = append(byLen[len(render(o))], o)
+			}
+			var cfgsHere []P
+			for i, c := range cfgs {
+				if i%9 == 0 || t.Thorough() {
+					cfgsHere = append(cfgsHere, c)
+				}
+			}
+			t.Par(len(cfgsHere), func(ci int) {
+				cfg := cfgsHere[ci]
+				for _, group := range byLen {
+					for _, a := range group {
+						for _, b := range group {
+							if a == b {
+								continue
+							}
+							a, b := a, b
+							t.Do(func() string {
+								return fmt.Sprintf("config%s: offer%s parsed in a buffer and negotiated, Reset, the buffer rewritten with offer%s", ps(cfg), ps(a), ps(b))
+							}, func() *explore.Fail {
+								buf := render(a)
+								pa, ok := httphead.ParseOptions(buf, nil)
+								if !ok || len(pa) != 1 {
+									return explore.Failf("harness-offer-rendering", "%q", buf)
+								}
+								e := &wsflate.Extension{Parameters: cfg}
+								if _, err := e.Negotiate(pa[0]); err != nil {
+									return explore.Failf("valid-offer-error", "%v", err)
+								}
+								e.Reset()
+								copy(buf, render(b))
+								pb, ok := httphead.ParseOptions(buf, nil)
+								if !ok || len(pb) != 1 {
+									return explore.Failf("harness-offer-rendering", "%q", buf)
+								}
+								got, err := e.Negotiate(pb[0])
+								f := &wsflate.Extension{Parameters: cfg}
+								want, werr := f.Negotiate(offerOption(b))
+								if (err == nil) != (werr == nil) || optStr(got) != optStr(want) {
+									return explore.Failf("answer-depends-on-the-previous-offer-in-the-same-buffer", "got %q (%v), a fresh negotiator answers %q (%v)", optStr(got), err, optStr(want), werr)
+								}
+								gp, ga := e.Accepted()
+								wp, wa := f.Accepted()
+								if gp != wp || ga != wa {
+									return explore.Failf("Accepted-depends-on-the-previous-offer-in-the-same-buffer", "%s/%v vs %s/%v", ps(gp), ga, ps(wp), wa)
+								}
+								return nil
+							})
+						}
+					}
+				}
+			})
+			t.Outcome("as-fresh")
+		})
+
 		r.Part("E1b-through-Upgrader", func(t *explore.T) {
 			stride := t.Pick(7, 1)
 			t.Par(len(cfgs), func(ci int) {
